@@ -129,6 +129,8 @@ pub struct SimB {
     http: HttpSrv,
     /// (session, serial) of the last update reported successful.
     last_ok: Option<(String, u64)>,
+    /// The server's object set at that version.
+    last_ok_objects: BTreeMap<String, Bytes>,
     pub kill: Option<Arc<KillCtl>>,
     stats: Stats,
     log: Vec<String>,
@@ -199,7 +201,8 @@ impl SimB {
         let mut sim = SimB {
             seed, rng, scratch: scratch.into(), config,
             ca: make_ca(&notify_uri()),
-            srv, srv_history: Vec::new(), http, last_ok: None, kill,
+            srv, srv_history: Vec::new(), http, last_ok: None,
+            last_ok_objects: BTreeMap::new(), kill,
             stats: Stats::default(), log: Vec::new(), ops: Vec::new(),
             violations: Vec::new(), property, next_content: 0,
             crashed: false,
@@ -273,6 +276,26 @@ impl SimB {
                 self.srv.deltas.remove(0);
             }
             "prune-deltas".into()
+        }
+        else if roll < 90 {
+            // The server rewrites its recent history under the same
+            // session (restore from backup): go back one or two serials
+            // and publish different changes under the same serials.
+            let back = 1 + self.rng.below(2);
+            let target = self.srv.serial.saturating_sub(back);
+            let session = self.srv.session.clone();
+            let base = self.srv_history.iter().rev().find(|s| {
+                s.session == session && s.serial == target
+            }).cloned();
+            match base {
+                Some(base) => {
+                    self.srv = base;
+                    let n = back + self.rng.below(2);
+                    for _ in 0..n { self.mutate_server(); }
+                    format!("rewrite-history back {back} forward {n}")
+                }
+                None => "idle".into()
+            }
         }
         else {
             "idle".into()
@@ -637,36 +660,47 @@ impl SimB {
                     ));
                 }
                 // Content must equal the server's snapshot at that version.
-                let truth = self.srv_history.iter().find(|s| {
-                    s.session == session && s.serial == serial
-                }).map(|s| s.objects.clone());
-                match truth {
-                    None => {
-                        self.violation("unknown-version", step, format!(
-                            "archive records {}#{} which the server never \
-                             published", &session[..8], serial
-                        ));
-                    }
-                    Some(truth) => {
-                        if truth != objects {
-                            let missing: Vec<&String> = truth.keys().filter(
-                                |k| !objects.contains_key(*k)).collect();
-                            let extra: Vec<&String> = objects.keys().filter(
-                                |k| !truth.contains_key(*k)).collect();
-                            let differ: Vec<&String> = truth.iter().filter(
-                                |(k, v)| objects.get(*k).map(|o| o != *v)
-                                    .unwrap_or(false)
-                            ).map(|x| x.0).collect();
-                            self.violation("divergent-copy", step, format!(
-                                "update reported successful (304: {got_304}) \
-                                 but the local copy differs from the server's \
-                                 snapshot {}#{}: missing {missing:?} extra \
-                                 {extra:?} differing {differ:?}",
-                                &session[..8], serial
-                            ));
-                        }
-                    }
+                let truths: Vec<BTreeMap<String, Bytes>> = if got_304
+                    && !self.crashed
+                {
+                    vec![self.last_ok_objects.clone()]
                 }
+                else if got_304 {
+                    self.srv_history.iter().filter(|s| {
+                        s.session == session && s.serial == serial
+                    }).map(|s| s.objects.clone()).collect()
+                }
+                else if state.session == session && state.serial == serial {
+                    vec![state.objects.clone()]
+                }
+                else {
+                    Vec::new()
+                };
+                if truths.is_empty() {
+                    self.violation("unknown-version", step, format!(
+                        "archive records {}#{} which is not the version of \
+                         this exchange", &session[..8], serial
+                    ));
+                }
+                else if !truths.iter().any(|truth| *truth == objects) {
+                    let truth = &truths[0];
+                    let missing: Vec<&String> = truth.keys().filter(
+                        |k| !objects.contains_key(*k)).collect();
+                    let extra: Vec<&String> = objects.keys().filter(
+                        |k| !truth.contains_key(*k)).collect();
+                    let differ: Vec<&String> = truth.iter().filter(
+                        |(k, v)| objects.get(*k).map(|o| o != *v)
+                            .unwrap_or(false)
+                    ).map(|x| x.0).collect();
+                    self.violation("divergent-copy", step, format!(
+                        "update reported successful (304: {got_304}) \
+                         but the local copy differs from the server's \
+                         snapshot {}#{}: missing {missing:?} extra \
+                         {extra:?} differing {differ:?}",
+                        &session[..8], serial
+                    ));
+                }
+                self.last_ok_objects = objects.clone();
                 self.last_ok = Some((session.clone(), serial));
                 self.log.push(format!(
                     "step {step}: view {}#{} fault {fault:?} -> updated to \
@@ -780,6 +814,7 @@ impl SimB {
         let _ = std::fs::remove_dir_all(&pre);
         copy_dir(&self.scratch.join("cache"), &pre);
         let saved_ok = self.last_ok.clone();
+        let saved_ok_objects = self.last_ok_objects.clone();
         let saved_log_len = self.log.len();
 
         // Counting pass.
@@ -812,6 +847,7 @@ impl SimB {
             // Re-run the same update from the same state, imaging at k.
             self.restore_cache(&pre);
             self.last_ok = saved_ok.clone();
+            self.last_ok_objects = saved_ok_objects.clone();
             kill.counter.store(0, Ordering::SeqCst);
             kill.at.store(k, Ordering::SeqCst);
             *kill.taken_site.lock().unwrap() = None;
@@ -834,6 +870,7 @@ impl SimB {
             // The crash: the process is gone, the image is what is left.
             self.restore_cache(&kill.image);
             self.last_ok = saved_ok.clone();
+            self.last_ok_objects = saved_ok_objects.clone();
             self.crashed = true;
             self.srv_history = base_history.clone();
             self.srv = base_srv.clone();
